@@ -50,7 +50,7 @@ def noise(rng, kind):
             b[-1] = 0xAB
         return bytes(b)
     if kind == "aa":
-        return b"\xaa" * rng.choice([1, 2, 7, 40, 130])
+        return b"\xaa" * rng.choice([1, 2, 7, 40, 130, 1000, 5000])
     if kind == "ends_aa":
         return noise(rng, "free")[:-1] + b"\xaa"
     if kind == "marker":
